@@ -24,6 +24,10 @@ func init() {
 		Run: runC03,
 	})
 	addMutants("C03",
+		mutant{"DelWrite drops the read interest", "internal/poll_linux.go",
+			"\tif *events&PollerWriteEvent == PollerWriteEvent {\n\t\tatomic.AddInt64(&p.pending, -1)\n\t\t*events ^= PollerWriteEvent", "\tif *events&PollerReadEvent == PollerReadEvent {\n\t\tatomic.AddInt64(&p.pending, -1)\n\t\t*events ^= PollerReadEvent", "C03-R2d"},
+		mutant{"SetWrite registers the read interest", "internal/poll_linux.go",
+			"\treturn p.setRW(slot.Fd, slot, PollerWriteEvent)", "\treturn p.setRW(slot.Fd, slot, PollerReadEvent)", "C03-R2d"},
 		mutant{"setRW counts before the kernel accepted", "internal/poll_linux.go",
 			"\t\tif err != nil {\n\t\t\t// The kernel did not take the registration: nothing is pending and the slot must not claim the event.\n\t\t\t*events = oldEvents\n\t\t\treturn err\n\t\t}\n\n\t\tatomic.AddInt64(&p.pending, 1)",
 			"\t\tatomic.AddInt64(&p.pending, 1)\n\t\tif err != nil {\n\t\t\t*events = oldEvents\n\t\t\treturn err\n\t\t}\n", "C03-R1"},
@@ -258,6 +262,12 @@ func runC03(c *Ctx) {
 					touches = true
 				}
 			}
+			// running posted handlers is an event to account for, also when the counter update itself went missing
+			if call, ok := in.(ssa.CallInstruction); ok && !call.Common().IsInvoke() && call.Common().StaticCallee() == nil {
+				if _, isB := call.Common().Value.(*ssa.Builtin); !isB && fromPosts(call.Common().Value, posts) {
+					touches = true
+				}
+			}
 		})
 		if !touches {
 			continue
@@ -463,6 +473,38 @@ func runC03(c *Ctx) {
 			}
 		})
 		c.check(good && n == 1, fn, "forwards", fn.Pos(), "forwards to Poller."+pair[1], "IO."+pair[0]+" does not forward to Poller."+pair[1]+" (exactly once): cancelling or closing removes the interest of the other direction, the parked operation stays registered and is resumed after its callback was already completed")
+	}
+
+	// ... and the poller operation named for a direction changes the interest bit of that direction (and only that one)
+	c.rule("C03-R2d", "poller SetRead/DelRead change the read interest bit, SetWrite/DelWrite the write interest bit", 4)
+	{
+		rd, _ := constantInt(p.Const("internal", "PollerReadEvent"))
+		wr, _ := constantInt(p.Const("internal", "PollerWriteEvent"))
+		for _, m := range []struct {
+			name string
+			bit  int64
+			kind string
+		}{{"SetRead", rd, "set"}, {"SetWrite", wr, "set"}, {"DelRead", rd, "clear"}, {"DelWrite", wr, "clear"}} {
+			fn := p.Method("internal", "poller", m.name)
+			n, good := 0, true
+			got := ""
+			for _, d := range deepStoresTo(fn, events) {
+				ev := classifyEventsStore(d.Store, events)
+				if ev.kind == "restore" {
+					continue // undoing the change after a refused registration
+				}
+				n++
+				k, isK := constInt(d.translate(ev.mask))
+				if ev.kind != m.kind || !isK || k != m.bit {
+					good = false
+					got = ev.kind
+					if isK {
+						got += fmt.Sprintf(" of bit %#x", k)
+					}
+				}
+			}
+			c.check(good && n > 0, fn, "direction", fn.Pos(), m.name+" changes exactly its own interest bit", "poller."+m.name+" does not "+m.kind+" the interest bit of its own direction ("+got+"): the other direction's parked operation loses its registration (or gains one nobody asked for)")
+		}
 	}
 
 	c.rule("C03-R3", "Del removes the read and the write interest on every path", 1)
